@@ -196,7 +196,7 @@ impl<'input> Parser<'input> {
     /// This is the expected format of the string value of the `type` argument
     /// of some directives like [`@field`](https://specs.apollo.dev/join/v0.3/#@field).
     pub fn parse_type(mut self) -> SyntaxTree<Type> {
-        grammar::ty::ty(&mut self);
+        grammar::ty::root_ty(&mut self);
 
         let builder = Rc::try_unwrap(self.builder)
             .expect("More than one reference to builder left")
@@ -368,6 +368,20 @@ impl<'input> Parser<'input> {
         };
 
         self.push_err(err);
+    }
+
+    /// After the root construct of a standalone syntax tree (a type or a selection set):
+    /// anything but ignored tokens before the end of input is an error.
+    /// Unexpected tokens are kept in the current node as ERROR tokens.
+    pub(crate) fn expect_end_of_input(&mut self) {
+        self.skip_ignored();
+        while let Some(kind) = self.peek() {
+            if kind == TokenKind::Eof {
+                break;
+            }
+            self.err_and_pop("expected end of input");
+        }
+        self.push_ignored();
     }
 
     /// Push an error to parser's error Vec.
